@@ -45,7 +45,17 @@ type c16Dest struct {
 
 var c16Keys = []string{"name", "email", "note", "city", "age", "count", "zip", "tags", "ok", "score"}
 
+// c16Cap sometimes writes a key with a capital first letter ("Name"): another key of the schema that happens to address the same Go
+// field as "name". Fields are keyed by their schema key; a union holds both.
+func c16Cap(r *rng.Rand, k string) string {
+	if r.Intn(4) == 0 && k != "tags" && k != "ok" && k != "score" {
+		return strings.ToUpper(k[:1]) + k[1:]
+	}
+	return k
+}
+
 func c16Child(key string, variant int) z.ZogSchema {
+	key = strings.ToLower(key[:1]) + key[1:]
 	switch key {
 	case "name", "email", "note", "city":
 		switch variant % 3 {
@@ -208,6 +218,12 @@ func (h *c16Run) randomInput() (map[string]any, c16Dest) {
 			v := pick(0.1, 0.5, 2.5).(float64)
 			data[k] = v
 			d.Score = v
+		}
+	}
+	// the capitalised spelling of a key carries the same value (both spellings fill the same Go field)
+	for _, k := range c16Keys {
+		if v, ok := data[k]; ok && k != "tags" && k != "ok" && k != "score" {
+			data[strings.ToUpper(k[:1])+k[1:]] = v
 		}
 	}
 	return data, d
@@ -394,7 +410,7 @@ func (c16) RunCase(c *core.Ctx) {
 			nm = &c16Model{fields: map[string]z.ZogSchema{}, parent: -1}
 			sc := z.Schema{}
 			if r.Bool() {
-				k := c16Keys[r.Intn(len(c16Keys))]
+				k := c16Cap(r, c16Keys[r.Intn(len(c16Keys))])
 				ch := c16Child(k, r.Intn(3))
 				sc[k] = ch
 				nm.fields[k] = ch
@@ -455,7 +471,7 @@ func (c16) RunCase(c *core.Ctx) {
 			nm = &c16Model{fields: copyFields(sm.fields), tests: append([]int{}, sm.tests...), posts: append([]int{}, sm.posts...), parent: src}
 			var ks []string
 			for j := 0; j < r.Range(1, 3); j++ {
-				k := c16Keys[r.Intn(len(c16Keys))]
+				k := c16Cap(r, c16Keys[r.Intn(len(c16Keys))])
 				ch := c16Child(k, r.Intn(3))
 				ext[k] = ch
 				nm.fields[k] = ch
